@@ -8,21 +8,64 @@ package syncer
 import (
 	"bufio"
 	"bytes"
+	"context"
 	"errors"
 	"fmt"
 	"io"
+	"sort"
 	"strconv"
 	"strings"
 	"testing"
+	"testing/synctest"
+	"time"
 
 	"github.com/mgtv-tech/redis-GunYu/config"
 	"github.com/mgtv-tech/redis-GunYu/pkg/filter"
+	"github.com/mgtv-tech/redis-GunYu/pkg/rdb"
+	"github.com/mgtv-tech/redis-GunYu/pkg/redis/client"
+	"github.com/mgtv-tech/redis-GunYu/pkg/redis/client/conn"
+	"github.com/mgtv-tech/redis-GunYu/pkg/redis/keyspec"
 	usync "github.com/mgtv-tech/redis-GunYu/pkg/sync"
 	"github.com/mgtv-tech/redis-GunYu/pkg/vfc10"
+	"github.com/mgtv-tech/redis-GunYu/pkg/vfc20"
+	"github.com/mgtv-tech/redis-GunYu/pkg/vfdoubles"
 	"github.com/mgtv-tech/redis-GunYu/pkg/vfutil"
 )
 
-func vfC10Output(c vfc10.Cfg, r *vfutil.Rand) *RedisOutput {
+// vfC10Dbs is the database side of a RedisOutput: TargetDb, TargetDbMap, startDbId.
+type vfC10Dbs struct {
+	tdb int
+	m   map[int]int
+	sdb int
+}
+
+func (d vfC10Dbs) mapStr() string {
+	if len(d.m) == 0 {
+		return "-"
+	}
+	var ks []int
+	for k := range d.m {
+		ks = append(ks, k)
+	}
+	sort.Ints(ks)
+	p := make([]string, len(ks))
+	for i, k := range ks {
+		p[i] = fmt.Sprintf("%d:%d", k, d.m[k])
+	}
+	return strings.Join(p, ",")
+}
+
+func (d vfC10Dbs) target(origin int) int {
+	if d.tdb != -1 {
+		return d.tdb
+	}
+	if t, ok := d.m[origin]; ok {
+		return t
+	}
+	return origin
+}
+
+func vfC10FilterConfig(c vfc10.Cfg, r *vfutil.Rand) config.FilterConfig {
 	fc := config.FilterConfig{
 		DbBlacklist:  config.SliceInt(c.DB),
 		CmdBlacklist: config.SliceString(c.CB),
@@ -34,12 +77,23 @@ func vfC10Output(c vfc10.Cfg, r *vfutil.Rand) *RedisOutput {
 	if len(c.SW)+len(c.SB) > 0 || r.Bool() {
 		fc.SlotFilter = &config.FilterSlotConfig{KeySlotWhitelist: config.DoubleSliceUint16(c.SW), KeySlotBlacklist: config.DoubleSliceUint16(c.SB)}
 	}
-	return NewRedisOutput(RedisOutputConfig{
-		InputName: "vf-c10",
-		TargetDb:  -1,
-		Redis:     config.RedisConfig{Type: config.RedisTypeStandalone},
-		Filter:    fc,
+	return fc
+}
+
+func vfC10OutputDbs(c vfc10.Cfg, r *vfutil.Rand, d vfC10Dbs) *RedisOutput {
+	ro := NewRedisOutput(RedisOutputConfig{
+		InputName:   "vf-c10",
+		TargetDb:    d.tdb,
+		TargetDbMap: d.m,
+		Redis:       config.RedisConfig{Type: config.RedisTypeStandalone},
+		Filter:      vfC10FilterConfig(c, r),
 	})
+	ro.startDbId = d.sdb
+	return ro
+}
+
+func vfC10Output(c vfc10.Cfg, r *vfutil.Rand) *RedisOutput {
+	return vfC10OutputDbs(c, r, vfC10Dbs{tdb: -1})
 }
 
 func vfC10Encode(cmds [][][]byte) []byte {
@@ -65,9 +119,20 @@ func vfC10Lower(s string) string {
 	return string(b)
 }
 
+// vfC10Ends are the end offsets of the encoded commands (start offset 0).
+func vfC10Ends(cmds [][][]byte) []int {
+	ends := make([]int, len(cmds))
+	off := 0
+	for i, c := range cmds {
+		off += len(vfC10Encode([][][]byte{c}))
+		ends[i] = off
+	}
+	return ends
+}
+
 // vfC10Parse runs the real parser loop over the commands and renders what it
-// queued for the target: "S<db>" for a select, "F@<db>:<name,args…>" for a
-// command, "E" when the parser stopped with an error other than EOF.
+// handed to the sender: "S<db>#<off>" for a select, "F@<db>#<off>:<name,args…>"
+// for a command, "E" when the parser stopped with an error other than EOF.
 func vfC10Parse(ro *RedisOutput, cmds [][][]byte) (out []string, pan string) {
 	sendBuf := make(chan cmdExecution, len(cmds)+4)
 	quit := usync.NewWaitCloser(nil)
@@ -86,14 +151,14 @@ func vfC10Parse(ro *RedisOutput, cmds [][][]byte) (out []string, pan string) {
 	}
 	for ce := range sendBuf {
 		if ce.Cmd == "select" && len(ce.Args) == 1 && ce.Db >= 0 && string(ce.Args[0].([]byte)) == strconv.Itoa(ce.Db) {
-			out = append(out, "S"+strconv.Itoa(ce.Db))
+			out = append(out, fmt.Sprintf("S%d#%d", ce.Db, ce.Offset))
 			continue
 		}
 		all := [][]byte{[]byte(ce.Cmd)}
 		for _, a := range ce.Args {
 			all = append(all, a.([]byte))
 		}
-		out = append(out, "F@"+strconv.Itoa(ce.Db)+":"+vfc10.ArgList(all))
+		out = append(out, fmt.Sprintf("F@%d#%d:%s", ce.Db, ce.Offset, vfc10.ArgList(all)))
 	}
 	if !errors.Is(err, io.EOF) {
 		out = append(out, "E")
@@ -102,12 +167,32 @@ func vfC10Parse(ro *RedisOutput, cmds [][][]byte) (out []string, pan string) {
 }
 
 // vfC10WantParse evaluates the property on the same command sequence with the
-// oracle's rule predicates: a command reaches the target iff its database
+// oracle's rule predicates: a command reaches the sender iff its database
 // (last SELECT) is not blacklisted, its name is not blacklisted, it is not the
 // sentinel hello, and its keys are accepted (projection for DEL/UNLINK/MSET).
-func vfC10WantParse(eff vfc10.Cfg, cmds [][][]byte) (out []string) {
-	bypass, cur := false, -1
-	for _, c := range cmds {
+// One exception (D23): transaction brackets are handed over inside a listed
+// database too (a MULTI while no forwarded transaction is open, an EXEC while
+// one is), carrying the offset of the last command handed over; the sender
+// absorbs them, no data command of the listed database goes with them. SELECTs of
+// unlisted databases arrive mapped (TargetDb / TargetDbMap) and only when the
+// target database changes; a run resumed in database startDbId > 0 begins with
+// that select.
+func vfC10WantParse(eff vfc10.Cfg, d vfC10Dbs, cmds [][][]byte) (out []string) {
+	bypass, txnOpen, cur, last := false, false, -1, 0
+	ends := vfC10Ends(cmds)
+	if d.sdb > 0 {
+		out = append(out, fmt.Sprintf("S%d#0", d.sdb))
+	}
+	fwd := func(name string, args [][]byte, off int) {
+		out = append(out, fmt.Sprintf("F@%d#%d:%s", cur, off, vfc10.ArgList(append([][]byte{[]byte(name)}, args...))))
+		if name == "multi" {
+			txnOpen = true
+		} else if name == "exec" {
+			txnOpen = false
+		}
+		last = off
+	}
+	for i, c := range cmds {
 		name, argv := vfC10Lower(string(c[0])), c[1:]
 		if name == "select" {
 			if len(argv) != 1 {
@@ -126,16 +211,20 @@ func vfC10WantParse(eff vfc10.Cfg, cmds [][][]byte) (out []string) {
 				continue
 			}
 			if n >= 0 {
-				if n != cur {
-					cur = n
-					out = append(out, "S"+strconv.Itoa(n))
+				if t := d.target(n); t != cur {
+					cur = t
+					out = append(out, fmt.Sprintf("S%d#%d", t, ends[i]))
+					last = ends[i]
 				}
 				continue
 			}
 			// a negative index is not a database switch: passed on like any command
-			out = append(out, "F@"+strconv.Itoa(cur)+":"+vfc10.ArgList(append([][]byte{[]byte(name)}, na...)))
+			fwd(name, na, ends[i])
 			continue
 		}
+		// in a listed database only transaction brackets are handed over: a MULTI while no
+		// forwarded transaction is open, an EXEC while one is (with the last offset handed over)
+		closes := bypass && ((name == "multi" && !txnOpen) || (name == "exec" && txnOpen))
 		if name != "ping" {
 			if vfc10.WantFilterCmd(eff, name) {
 				continue
@@ -144,18 +233,200 @@ func vfC10WantParse(eff vfc10.Cfg, cmds [][][]byte) (out []string) {
 				continue
 			}
 		}
-		// transaction brackets are handed to the sender whatever the database filter says (the
-		// sender absorbs them: they never reach the target as commands); a withheld EXEC would
-		// leave the sender inside the transaction
-		if bypass && name != "multi" && name != "exec" {
+		if bypass && !closes {
 			continue
 		}
 		na, rej, _ := vfc10.WantFilterCmdKey(eff, name, argv)
 		if rej {
 			continue
 		}
-		out = append(out, "F@"+strconv.Itoa(cur)+":"+vfc10.ArgList(append([][]byte{[]byte(name)}, na...)))
+		off := ends[i]
+		if closes {
+			off = last
+		}
+		fwd(name, na, off)
 	}
+	return
+}
+
+// ---------------------------------------------------------------- bisync parser
+
+// vfC10BisyncParse runs the REAL bisync parser (syncer/bisync.go
+// parseAofReplayUnits, standalone mode) and renders its units.
+func vfC10BisyncParse(c vfc10.Cfg, r *vfutil.Rand, cmds [][][]byte) (out []string, flat [][][]byte, pan string) {
+	ro := NewRedisOutput(RedisOutputConfig{
+		InputName:     "vf-c10",
+		BisyncEnabled: true,
+		BatchCmdCount: 8,
+		TargetDb:      -1,
+		Redis:         config.RedisConfig{Type: config.RedisTypeStandalone},
+		Filter:        vfC10FilterConfig(c, r),
+	})
+	// commands the static table does not resolve fall back to COMMAND GETKEYS on the target: no target here
+	ro.newRedisConn = func(context.Context) (client.Redis, error) { return nil, errors.New("no target") }
+	wait := usync.NewWaitCloser(nil)
+	unitBuf := make(chan *bisyncReplayUnit, len(cmds)+4)
+	var err error
+	func() {
+		defer func() {
+			if rc := recover(); rc != nil {
+				pan = fmt.Sprint(rc)
+			}
+		}()
+		err = ro.parseAofReplayUnits(wait, bufio.NewReader(bytes.NewReader(vfC10Encode(cmds))), 0, unitBuf)
+	}()
+	if pan != "" {
+		return []string{"panic"}, nil, pan
+	}
+	for u := range unitBuf {
+		p := make([]string, len(u.Commands))
+		for i, bc := range u.Commands {
+			all := append([][]byte{[]byte(bc.Cmd)}, bc.Args...)
+			p[i] = vfc10.ArgList(all)
+			flat = append(flat, all)
+		}
+		tag := "U:"
+		if u.SourceTxn {
+			tag = "T:"
+		}
+		out = append(out, tag+strings.Join(p, "|"))
+	}
+	switch {
+	case err == nil || errors.Is(err, io.EOF) && !strings.Contains(err.Error(), "unexpected EOF while parsing transaction"):
+	case strings.Contains(err.Error(), "unexpected EOF while parsing transaction"):
+		out = append(out, "eof-in-txn")
+	default:
+		out = append(out, "E")
+	}
+	return
+}
+
+// vfC10Allowed is what the configured rules let through, command by command
+// (no database mapping, no transaction handling): the bisync parser may drop
+// more (its own control traffic, mirrored transactions, SELECT, PING) but must
+// never emit anything else.
+func vfC10Allowed(eff vfc10.Cfg, cmds [][][]byte) (out [][][]byte) {
+	bypass := false
+	for _, c := range cmds {
+		name, argv := vfC10Lower(string(c[0])), c[1:]
+		if name == "select" {
+			if len(argv) == 1 {
+				if n, err := strconv.Atoi(string(argv[0])); err == nil {
+					bypass = vfc10.WantFilterDb(eff, n)
+				}
+			}
+			continue
+		}
+		if name == "ping" || name == "multi" || name == "exec" {
+			continue
+		}
+		if bypass || vfc10.WantFilterCmd(eff, name) {
+			continue
+		}
+		if name == "publish" && len(argv) > 0 && vfC10Lower(string(argv[0])) == "__sentinel__:hello" {
+			continue
+		}
+		na, rej, _ := vfc10.WantFilterCmdKey(eff, name, argv)
+		if rej {
+			continue
+		}
+		out = append(out, append([][]byte{[]byte(name)}, na...))
+	}
+	return
+}
+
+func vfC10SameCmd(a, b [][]byte) bool {
+	if len(a) != len(b) {
+		return false
+	}
+	for i := range a {
+		if !bytes.Equal(a[i], b[i]) {
+			return false
+		}
+	}
+	return true
+}
+
+// vfC10Subseq: every element of got appears in want, in order.
+func vfC10Subseq(got, want [][][]byte) bool {
+	j := 0
+	for _, g := range got {
+		for j < len(want) && !vfC10SameCmd(g, want[j]) {
+			j++
+		}
+		if j == len(want) {
+			return false
+		}
+		j++
+	}
+	return true
+}
+
+// ---------------------------------------------------------------- snapshot path
+
+type vfC10Ent struct {
+	db  int
+	key []byte
+}
+
+// vfC10RdbRun feeds the entries the REAL rdb.Loader produces from a snapshot of
+// string keys to the REAL worker loop (RedisOutput.rdbReplay, or
+// rdbReplayBisync) against the target double, and reports which entries
+// arrived in the target.
+func vfC10RdbRun(t *testing.T, c vfc10.Cfg, r *vfutil.Rand, ents []vfC10Ent, bisync bool) (kept []bool, runErr error) {
+	kvs := make([]vfc20.KV, len(ents))
+	for i, e := range ents {
+		kvs[i] = vfc20.KV{DB: e.db, Key: e.key, Type: 0, Str: []byte("v")}
+	}
+	bins, err := vfc20.Load(vfc20.BuildRDB(kvs, vfc20.Opts{Aux: true}), 0, "7.0.0")
+	if err != nil {
+		panic("C10: generated snapshot rejected by the loader: " + err.Error())
+	}
+	kept = make([]bool, len(ents))
+	fc := vfC10FilterConfig(c, r)
+	synctest.Test(t, func(t *testing.T) {
+		vfc20.SettleClock()
+		tg := vfdoubles.NewTarget()
+		tg.SetNow(time.Now().UnixMilli())
+		cfg := RedisOutputConfig{
+			InputName:                  "vf",
+			CheckpointName:             "vfcp",
+			RunId:                      "vfrun",
+			BisyncEnabled:              bisync,
+			EnableResumeFromBreakPoint: true,
+			TargetDb:                   -1,
+			KeyExists:                  "replace",
+			MaxProtoBulkLen:            512 << 20,
+			ReplayRdbEnableRestore:     false,
+			ReplayRdbParallel:          1,
+			Stats:                      config.OutputStats{DisableLog: true},
+			Filter:                     fc,
+		}
+		cfg.Redis.Type = config.RedisTypeStandalone
+		cfg.Redis.Otype = config.RedisTypeStandalone
+		cfg.Redis.Addresses = config.SliceString{"double:0"}
+		cfg.Redis.Version = "7.0.0"
+		ro := NewRedisOutput(cfg)
+		rc := ro.cfg.Redis
+		ro.newRedisConn = func(ctx context.Context) (client.Redis, error) {
+			return conn.VerifNewRedisConn(tg.Dial(), rc), nil
+		}
+		pipe := make(chan *rdb.BinEntry, len(bins)+1)
+		for _, e := range bins {
+			pipe <- e
+		}
+		close(pipe)
+		if bisync {
+			runErr = ro.rdbReplayBisync(context.Background(), "vfrun", 5000, pipe)
+		} else {
+			runErr = ro.rdbReplay(context.Background(), pipe)
+		}
+		synctest.Wait()
+		tg.CloseAll()
+		for i, e := range ents {
+			kept[i] = tg.Get(e.db, string(e.key)) != nil
+		}
+	})
 	return
 }
 
@@ -197,6 +468,8 @@ func vfC10GenStream(r *vfutil.Rand, eff vfc10.Cfg) [][][]byte {
 			fallthrough
 		case 3:
 			cmds = append(cmds, [][]byte{[]byte(vfutil.Pick(r, []string{"PING", "ping"}))})
+		case 5: // transaction brackets (also around a SELECT: the D23 exec rule)
+			cmds = append(cmds, [][]byte{[]byte(vfutil.Pick(r, []string{"MULTI", "multi", "EXEC", "exec", "Exec"}))})
 		case 4:
 			ch := vfutil.Pick(r, []string{"__sentinel__:hello", "__SENTINEL__:HELLO", "__sentinel__:hell", "news"})
 			cmds = append(cmds, [][]byte{[]byte(vfutil.Pick(r, []string{"PUBLISH", "publish"})), []byte(ch), r.Bytes(3)})
@@ -228,6 +501,97 @@ func vfC10Cmds(cmds [][][]byte) string {
 	return strings.Join(p, " ")
 }
 
+// vfC10GenBisyncStream: like vfC10GenStream, but every data command is one the
+// static key table resolves (the bisync parser stops at the first command it
+// cannot route), and transactions come as balanced MULTI … EXEC blocks.
+func vfC10GenBisyncStream(r *vfutil.Rand, eff vfc10.Cfg) [][][]byte {
+	var out [][][]byte
+	data := func() [][]byte {
+		for tries := 0; tries < 6; tries++ {
+			name, args := vfc10.GenCommand(r, eff)
+			func() {
+				defer func() { recover() }()
+				if idx, ok := keyspec.CommandKeyIndexes(name, args); ok && len(idx) > 0 {
+					out = append(out, append([][]byte{[]byte(name)}, args...))
+				}
+			}()
+			if len(out) > 0 {
+				c := out[len(out)-1]
+				out = out[:len(out)-1]
+				ascii := true
+				for i := 0; i < len(c[0]); i++ {
+					if c[0][i] >= 0x80 {
+						ascii = false
+					}
+				}
+				if ascii {
+					return c
+				}
+			}
+		}
+		return [][]byte{[]byte("set"), vfc10.GenKey(r, eff), []byte("v")}
+	}
+	for _, c := range vfC10GenStream(r, eff) {
+		n := vfC10Lower(string(c[0]))
+		switch {
+		case n == "select" || n == "ping" || n == "publish":
+			out = append(out, c)
+		case n == "multi" || n == "exec":
+			if r.Chance(1, 8) {
+				out = append(out, c) // stray bracket: parser error
+				continue
+			}
+			out = append(out, [][]byte{[]byte("MULTI")})
+			for i, k := 0, r.Intn(4); i < k; i++ {
+				out = append(out, data())
+			}
+			out = append(out, [][]byte{[]byte("exec")})
+		default:
+			if len(eff.CB) > 0 && r.Chance(1, 10) {
+				out = append(out, c) // possibly blacklisted / unresolved name
+			} else {
+				out = append(out, data())
+			}
+		}
+	}
+	return out
+}
+
+func vfC10GenDbs(r *vfutil.Rand, c vfc10.Cfg) vfC10Dbs {
+	d := vfC10Dbs{tdb: -1}
+	switch r.Intn(6) {
+	case 0:
+		d.tdb = r.Intn(5)
+	case 1, 2:
+		d.m = map[int]int{}
+		for i, n := 0, r.Range(1, 4); i < n; i++ {
+			d.m[r.Intn(17)] = r.Intn(17)
+		}
+	}
+	if r.Chance(1, 3) {
+		d.sdb = r.Range(1, 16)
+		if len(c.DB) > 0 && r.Bool() {
+			d.sdb = vfutil.Pick(r, c.DB) // resumed inside a listed database
+		}
+	}
+	return d
+}
+
+func vfC10ParseCmds(fields []string) [][][]byte {
+	var cmds [][][]byte
+	for _, f := range fields {
+		if i := strings.Index(f, "/"); i >= 0 { // "<endoff>/<cmd>": offsets are recomputed
+			f = f[i+1:]
+		}
+		a, err := vfc10.ParseArgList(f)
+		if err != nil || len(a) == 0 {
+			panic("corpus line: bad command " + f)
+		}
+		cmds = append(cmds, a)
+	}
+	return cmds
+}
+
 func TestVerifC10(t *testing.T) {
 	s := vfutil.NewSession("C10out")
 	defer s.Close()
@@ -239,15 +603,24 @@ func TestVerifC10(t *testing.T) {
 		ExtraCB: append([]string{}, filter.NoRouteCmds...),
 		ExtraPB: []string{config.CheckpointKey, config.NamespacePrefixKey},
 	}
-
-	parseOp := func(c vfc10.Cfg, cmds [][][]byte, src string) {
-		ro := vfC10Output(c, r)
-		gotL, pan := vfC10Parse(ro, cmds)
-		got := strings.Join(gotL, " ")
-		if got == "" {
-			got = "."
+	dot := func(l []string) string {
+		if len(l) == 0 {
+			return "."
 		}
-		line := "c10 parse O " + c.Fields() + " " + vfC10Cmds(cmds)
+		return strings.Join(l, " ")
+	}
+
+	// ---- parser loop (parseAofCommand)
+	parseOp := func(c vfc10.Cfg, d vfC10Dbs, cmds [][][]byte, src string) {
+		ro := vfC10OutputDbs(c, r, d)
+		gotL, pan := vfC10Parse(ro, cmds)
+		got := dot(gotL)
+		ends := vfC10Ends(cmds)
+		toks := make([]string, len(cmds))
+		for i, cm := range cmds {
+			toks[i] = strconv.Itoa(ends[i]) + "/" + vfc10.ArgList(cm)
+		}
+		line := fmt.Sprintf("c10 parse O %s %d %s %d %s", c.Fields(), d.tdb, d.mapStr(), d.sdb, strings.Join(toks, " "))
 		s.Op(line, got)
 		if pan != "" {
 			s.Count("parse_panic")
@@ -255,17 +628,96 @@ func TestVerifC10(t *testing.T) {
 				map[string]interface{}{"mode": "O", "cfg": c.Fields(), "op": line, "panic": pan})
 			return
 		}
-		want := strings.Join(vfC10WantParse(e.Eff(c), cmds), " ")
-		if want == "" {
-			want = "."
-		}
+		want := dot(vfC10WantParse(e.Eff(c), d, cmds))
 		s.Count("parse_" + src)
 		s.Add("parse_cmds", len(cmds))
+		if d.sdb > 0 {
+			s.Count("parse_startdb")
+		}
+		if d.tdb != -1 || len(d.m) > 0 {
+			s.Count("parse_mapped")
+		}
 		if got != want {
-			s.Violate("parseAofCommand", fmt.Sprintf("target command log differs from the configured rules: got %q want %q", got, want),
+			s.Violate("parseAofCommand", fmt.Sprintf("what reaches the sender differs from the configured rules: got %q want %q", got, want),
 				map[string]interface{}{"mode": "O", "cfg": c.Fields(), "op": line, "got": got, "want": want})
 		} else if got != "." {
 			s.Distinct("p:" + line)
+		}
+	}
+
+	// ---- bisync parser (parseAofReplayUnits)
+	bparseOp := func(c vfc10.Cfg, cmds [][][]byte, src string) {
+		gotL, flat, pan := vfC10BisyncParse(c, r, cmds)
+		toks := make([]string, len(cmds))
+		special := false
+		for i, cm := range cmds {
+			toks[i] = vfc10.ArgList(cm)
+			n := vfC10Lower(string(cm[0]))
+			if n == "multi" || n == "exec" {
+				special = true
+			}
+			for _, a := range cm[1:] {
+				if bytes.Contains(a, []byte("redis-gunyu")) {
+					special = true
+				}
+			}
+		}
+		line := "c10 bparse O " + c.Fields() + " " + strings.Join(toks, " ")
+		got := dot(gotL)
+		s.Op(line, got)
+		s.Count("bparse_" + src)
+		if pan != "" {
+			s.Violate("FilterCmdKey-panic", "parseAofReplayUnits panics: "+pan,
+				map[string]interface{}{"mode": "O", "cfg": c.Fields(), "op": line, "panic": pan})
+			return
+		}
+		allowed := vfC10Allowed(e.Eff(c), cmds)
+		failed := len(gotL) > 0 && (gotL[len(gotL)-1] == "E" || gotL[len(gotL)-1] == "eof-in-txn")
+		bad := !vfC10Subseq(flat, allowed)
+		if !bad && !special && !failed && len(flat) != len(allowed) {
+			bad = true // nothing bisync-specific in the stream: exactly the allowed commands
+		}
+		if bad {
+			var al []string
+			for _, a := range allowed {
+				al = append(al, vfc10.ArgList(a))
+			}
+			s.Violate("parseAofReplayUnits", fmt.Sprintf("bisync parser output %q is not what the configured rules allow %q", got, al),
+				map[string]interface{}{"mode": "O", "cfg": c.Fields(), "op": line, "got": got, "allowed": strings.Join(al, " ")})
+		} else if len(flat) > 0 {
+			s.Distinct("b:" + line)
+		}
+	}
+
+	// ---- snapshot path (rdbReplay / rdbReplayBisync)
+	rdbOps := func(c vfc10.Cfg, ents []vfC10Ent, src string) {
+		eff := e.Eff(c)
+		for _, bis := range []bool{false, true} {
+			op, what := "rdb", "rdbReplay"
+			if bis {
+				op, what = "brdb", "rdbReplayBisync"
+			}
+			kept, err := vfC10RdbRun(t, c, r, ents, bis)
+			if err != nil {
+				s.Violate(what+"-error", err.Error(), map[string]interface{}{"mode": "O", "cfg": c.Fields()})
+				continue
+			}
+			for i, en := range ents {
+				line := fmt.Sprintf("c10 %s O %s %d %s", op, c.Fields(), en.db, vfutil.Hex(en.key))
+				g := "drop"
+				if kept[i] {
+					g = "keep"
+				}
+				s.Op(line, g)
+				want := !vfc10.WantFilterDb(eff, en.db) && !vfc10.WantFilterKey(eff, en.key) && !vfc10.WantFilterSlot(eff, en.key)
+				s.Count(op + "_" + g + "_" + src)
+				if kept[i] != want {
+					s.Violate(what, fmt.Sprintf("snapshot entry db=%d key=%q: replayed=%v, the configured rules say %v", en.db, en.key, kept[i], want),
+						map[string]interface{}{"mode": "O", "cfg": c.Fields(), "op": line, "got": kept[i], "want": want})
+				} else {
+					s.Distinct("r:" + line)
+				}
+			}
 		}
 	}
 
@@ -274,20 +726,40 @@ func TestVerifC10(t *testing.T) {
 			continue
 		}
 		t := strings.Fields(l)
-		if len(t) >= 10 && t[0] == "c10" && t[1] == "parse" && t[2] == "O" {
-			c, err := vfc10.ParseCfg(t[3:10])
-			if err != nil {
-				panic(err)
-			}
-			var cmds [][][]byte
-			for _, f := range t[10:] {
-				a, err := vfc10.ParseArgList(f)
-				if err != nil || len(a) == 0 {
-					panic("corpus parse line: " + l)
+		if len(t) < 10 || t[0] != "c10" || t[2] != "O" {
+			continue
+		}
+		c, err := vfc10.ParseCfg(t[3:10])
+		if err != nil {
+			panic(err)
+		}
+		rest := t[10:]
+		switch t[1] {
+		case "parse":
+			d := vfC10Dbs{tdb: -1}
+			// optional "<tdb> <map> <sdb>" before the commands
+			if len(rest) >= 3 && !strings.Contains(rest[0], ",") && (rest[1] == "-" || strings.Contains(rest[1], ":")) {
+				d.tdb, _ = strconv.Atoi(rest[0])
+				if rest[1] != "-" {
+					d.m = map[int]int{}
+					for _, kv := range strings.Split(rest[1], ",") {
+						p := strings.Split(kv, ":")
+						a, _ := strconv.Atoi(p[0])
+						b, _ := strconv.Atoi(p[1])
+						d.m[a] = b
+					}
 				}
-				cmds = append(cmds, a)
+				d.sdb, _ = strconv.Atoi(rest[2])
+				rest = rest[3:]
 			}
-			parseOp(c, cmds, "corpus")
+			parseOp(c, d, vfC10ParseCmds(rest), "corpus")
+		case "bparse":
+			bparseOp(c, vfC10ParseCmds(rest), "corpus")
+		case "rdb", "brdb":
+			if len(rest) == 2 {
+				db, _ := strconv.Atoi(rest[0])
+				rdbOps(c, []vfC10Ent{{db, vfutil.UnHex(rest[1])}}, "corpus")
+			}
 		}
 	}
 
@@ -297,7 +769,35 @@ func TestVerifC10(t *testing.T) {
 		c := vfc10.GenCfg(r, "O")
 		eff := e.Eff(c)
 		for j := 0; j < 6; j++ {
-			parseOp(c, vfC10GenStream(r, eff), "gen")
+			d := vfC10Dbs{tdb: -1}
+			if j >= 3 {
+				d = vfC10GenDbs(r, c)
+			}
+			parseOp(c, d, vfC10GenStream(r, eff), "gen")
+		}
+		for j := 0; j < 3; j++ {
+			bparseOp(c, vfC10GenBisyncStream(r, eff), "gen")
+		}
+		if i%4 == 0 {
+			seen := map[string]bool{}
+			var ents []vfC10Ent
+			for k := 0; k < 16; k++ {
+				db := r.Intn(6)
+				if len(c.DB) > 0 && r.Bool() {
+					db = vfutil.Pick(r, c.DB)
+				}
+				if db < 0 {
+					db = 0
+				}
+				key := vfc10.GenKey(r, eff)
+				id := fmt.Sprintf("%d/%s", db, key)
+				if len(key) == 0 || seen[id] {
+					continue
+				}
+				seen[id] = true
+				ents = append(ents, vfC10Ent{db, key})
+			}
+			rdbOps(c, ents, "gen")
 		}
 	}
 }
